@@ -90,18 +90,16 @@ def showSt (old s : St) : String :=
   s!"bt {s.blocks.length - 1}:{(s.blocks.getLast?).getD 0} ft {s.fstore.length - 1} fs [{" ".intercalate (s.fstore.map toString)}] bans [{" ".intercalate bans}] ntf [{" ".intercalate ntf}]"
 
 def showT : TOut → String
-  | .nil => "nil" | .errReorg => "err reorg" | .errNoPeers => "err nopeers" | .errAllBad => "err allbad"
-  | .errNoMajority => "err nomajority" | .errGetBlock => "err getblock" | .errPrev => "err prev"
-  | .errOther => "err other"
+  -- observation classes carry no message text: success, the harness's own injected
+  -- GetBlock failure (recognised by identity), or "an error"
+  | .nil => "nil" | .errGetBlock => "err getblock" | _ => "err"
 
 def showW : WOut → String
-  | .ok l h => s!"ok {l} {h}" | .errTip => "err tip" | .errPrev => "err prev" | .errAnc => "err other"
-  | .misaligned => "err misaligned"
+  | .ok l h => s!"ok {l} {h}" | _ => "err"
 
 def showRC : RCOut → String
   | .ok l => s!"ok [{" ".intercalate (l.map toString)}]"
-  | .errNoCp => "err nocp" | .errNoLong => "err nolong" | .errBaseline => "err baseline"
-  | .errMismatched => "err mismatched" | .t e => showT e
+  | .t e => showT e | _ => "err"
 
 def Env.hardFn (e : Env) : Nat → Option Nat := fun h => (e.hard.find? (·.1 == h)).map (·.2)
 
